@@ -83,4 +83,34 @@ theorem multiClass_fold_cons {R L P : Type} [LT P] [DecidableLT P]
     rw [hstep]
     exact ih _
 
+
+/-! ### generic list facts used by the families -/
+
+theorem map_range_eq_map {α β : Type} (l : List α) (g : Nat → β) (f : α → β)
+    (h : ∀ i (hi : i < l.length), g i = f l[i]) :
+    (List.range l.length).map g = l.map f := by
+  apply List.ext_getElem?
+  intro i
+  by_cases hi : i < l.length
+  · simp [List.getElem?_range hi, List.getElem?_eq_getElem hi, h i hi]
+  · have : l.length ≤ i := by omega
+    simp [this]
+
+theorem mapM_some_of_forall {α β : Type} (f : α → Option β) (g : α → β) (l : List α)
+    (h : ∀ a ∈ l, f a = some (g a)) : l.mapM f = some (l.map g) := by
+  induction l with
+  | nil => rfl
+  | cons a l ih =>
+    have ha := h a (by simp)
+    have hl := ih (fun x hx => h x (List.mem_cons_of_mem _ hx))
+    simp [List.mapM_cons, ha, hl]
+
+theorem column_of_rows {R α : Type} (ss : List (R → α)) (rows : List R) (i : Nat)
+    (hi : i < rows.length) :
+    column (ss.map fun s => rows.map s) i = ss.map fun s => s rows[i] := by
+  unfold column
+  induction ss with
+  | nil => rfl
+  | cons s ss ih => simp [List.filterMap_cons, List.getElem?_eq_getElem hi, ih]
+
 end LinfaSpec.Predict
